@@ -457,6 +457,8 @@ class C07(PropBase):
         # are derived by the real walk_stack + CfiStackWalker::from_ctx_and_args.  `below` = parameter sizes of the frames
         # under the callee ("-" = the frame's code has no FUNC/PUBLIC record), "." = the callee is the context frame.
         belows = [".", "-", "0", "4", "8", "-,-", "4,-", "-,4", "8,4", "4,8", "-,-,-", "4,4,-", "-,8,0", "12,-,-,4"]
+        if tier == "thorough":
+            belows += ["12", "16", "4294967295", "2147483648,-", "-,4294967292", "0,-", "-,0", "8,-,4,-", "-,-,-,-,-,8", "4,8,12,16,0"]
         ceip = MODBASE + 105
         ctxF = "eip=%d,esp=%d,ebp=%d,ebx=11,esi=12,edi=13,eax=14" % (ceip, ESP, ESP + 32)
         fd_progs = ["$T0 .raSearchStart = $eip $T0 ^ = $esp $T0 4 + =",
